@@ -104,6 +104,16 @@ def partitions(tier, seed):
                           "cfg": {"a": {"type": sp.cmd_key()}, "b": {"type": sp.cmd_key()}},
                           "sym": [["s", "int", 0, 80], ["a", "template", da.hex(), free_a], ["b", "template", db.hex(), free_b]],
                           "budget_s": 120, "path_timeout_s": 60})
+    # the same command once with a plain and once with an encrypted parameter area, interleaved
+    for x in codes:
+        plain = dict(G.commands(x)).get("sess1")
+        if plain is None:
+            continue
+        for a, b_, tag in ((plain, enc_cmds[x], "plain-vs-encrypted"), (enc_cmds[x], plain, "encrypted-vs-plain")):
+            parts.append({"id": "C12/%s-%s" % (sp.cc_name(x), tag), "prop": "harness.c12:history",
+                          "cfg": {"a": {"type": sp.cmd_key()}, "b": {"type": sp.cmd_key()}},
+                          "sym": [["s", "int", 0, 80], ["a", "template", a.hex(), []], ["b", "template", b_.hex(), []]],
+                          "budget_s": 120, "path_timeout_s": 60})
     if not quick:
         rsp = {}
         for cc in sp.cc_list():
